@@ -14,6 +14,7 @@ Inductive op :=
 | OSetDict (es : list (list Z * Z))   (* SetDictionary on an empty dictionary; es has unique routes *)
 | OFramed (chunks : list (list Z))  (* peer writes these chunks one by one over TCP, then closes; GetNextMessage until it fails *)
 | OWsFramed (msgs : list (list Z))  (* peer sends these websocket messages to the real WSAcceptor, then closes; GetNextMessage until it fails *)
+| OBigFrame (ws : bool) (t n : Z)   (* Encode(t, n pattern bytes) sent over a live websocket / TCP connection, read with GetNextMessage *)
 | OSweep (k : Z).                     (* every byte string of length <= k through Decode / packet Decode / ParseHeader *)
 
 Inductive obs :=
@@ -24,6 +25,7 @@ Inductive obs :=
 | RDict (ok : bool) (routes : list (list Z * Z))   (* sorted by code; [] when not ok *)
 | RFrames (ms : list (list Z)) (e : fend)
 | RWs (ms : list (list Z)) (e : option wsres)   (* None: the peer's close *)
+| RBig (intact : bool)                          (* exactly one message was handed up and it is the encoding that was sent *)
 | RSweep (panics : Z)
 | RErr (e : err)
 | RPanic.
@@ -60,6 +62,10 @@ Definition run_op (o : op) : obs :=
       RDict ok (if ok then sort_code (d_routes d) else [])
   | OFramed chunks => let '(ms, e) := read_frames (concat chunks) in RFrames ms e
   | OWsFramed msgs => let '(ms, e) := ws_frames msgs in RWs ms e
+  | OBigFrame _ t n =>
+      (* theorems C06_ws_framing / C06_framing: the encoding of every valid packet is handed up intact
+         by both acceptors - evaluated through the header only, so that n may be 2^24-1 *)
+      match pkt_header t n with Ok _ => RBig true | Err e => RErr e | Panic => RPanic end
   | OSweep _ => RSweep 0   (* theorem C06_total: no input panics *)
   end.
 
@@ -105,6 +111,7 @@ Definition obs_eqb (a b : obs) : bool :=
   | RDict o r, RDict o' r' => Bool.eqb o o' && list_eqb (pair_eqb zlist_eqb Z.eqb) r r'
   | RFrames x e, RFrames y e' => list_eqb zlist_eqb x y && fend_eqb e e'
   | RWs x e, RWs y e' => list_eqb zlist_eqb x y && owsres_eqb e e'
+  | RBig x, RBig y => Bool.eqb x y
   | RSweep x, RSweep y => Z.eqb x y
   | RErr x, RErr y => err_eqb x y
   | RPanic, RPanic => true
@@ -141,6 +148,7 @@ Definition monitor_op (o : op) (b : obs) : bool :=
            unchanged and in order *)
         let vs := fst (ws_frames msgs) in
         list_eqb zlist_eqb (firstn (length vs) ms) vs
+    | OBigFrame _ t n, RBig ok => ok || negb (pkt_type_ok t) || (n >=? MaxPacketSize) || (n <? 0)
     | OEncPkt t data, RBytes l =>
         match decode_pkts l with Ok [p] => pair_eqb Z.eqb zlist_eqb p (t, data) | _ => false end
     | _, _ => true
